@@ -13,7 +13,7 @@ package pppoe
 //                                          cookiespec = P:<mut> (cookie of the last PADO seen)
 //                                                     | <dt>:<mac>:<sv>:<cv>:<mut> (forged, second now-dt)
 //     T/<mac>/<sv>/<cv>/<sid>              PADT
-//     S/<mac>/<sv>/<cv>/<sid>/<cr|tr>      session-stage frame (LCP Configure-Request / Terminate-Request)
+//     S/<mac>/<sv>/<cv>/<sid>/<kind>       session-stage frame; kind: see vc04Frame (LCP codes, PAP, CHAP, IPCP, IPv6CP, IPv6, unknown)
 //     D/<sid>                              dead peer reported by the echo generator
 //     X/<sid>/<mac>/<sv>/<cv>              restore of a persisted session (installInMemoryState)
 //     C/<n>/<sv>                           n concurrent PADRs (distinct MACs) with valid cookies
@@ -178,6 +178,43 @@ func vc04FindCookie(p []byte) []byte {
 		p = p[ln:]
 	}
 	return nil
+}
+
+// session-stage packet kinds: PPP protocol and PPP payload
+func vc04Frame(kind string) (uint16, []byte) {
+	switch kind {
+	case "cr": // LCP Configure-Request
+		return 0xc021, []byte{1, 1, 0, 4}
+	case "ca": // LCP Configure-Ack
+		return 0xc021, []byte{2, 1, 0, 4}
+	case "cn": // LCP Configure-Nak
+		return 0xc021, []byte{3, 1, 0, 4}
+	case "tr": // LCP Terminate-Request
+		return 0xc021, []byte{5, 1, 0, 4}
+	case "ta": // LCP Terminate-Ack
+		return 0xc021, []byte{6, 1, 0, 4}
+	case "cj": // LCP Code-Reject
+		return 0xc021, []byte{7, 1, 0, 8, 99, 1, 0, 4}
+	case "pj": // LCP Protocol-Reject (IPCP)
+		return 0xc021, []byte{8, 1, 0, 6, 0x80, 0x21}
+	case "er": // LCP Echo-Request
+		return 0xc021, []byte{9, 1, 0, 8, 0, 0, 0, 0}
+	case "ep": // LCP Echo-Reply
+		return 0xc021, []byte{10, 1, 0, 8, 0, 0, 0, 0}
+	case "pap": // PAP Authenticate-Request "u"/"p"
+		return 0xc023, []byte{1, 1, 0, 8, 1, 'u', 1, 'p'}
+	case "chap": // CHAP Response
+		return 0xc223, []byte{2, 1, 0, 7, 1, 0xaa, 'u'}
+	case "ip": // IPCP Configure-Request
+		return 0x8021, []byte{1, 1, 0, 4}
+	case "i6": // IPv6CP Configure-Request
+		return 0x8057, []byte{1, 1, 0, 4}
+	case "v6": // IPv6 datagram (truncated header)
+		return 0x0057, []byte{0x60, 0, 0, 0, 0, 0, 59, 1}
+	case "unk": // unknown protocol
+		return 0x1234, []byte{1, 1, 0, 4}
+	}
+	return 0xc021, []byte{1, 1, 0, 4}
 }
 
 type vc04World struct {
@@ -403,13 +440,10 @@ func (w *vc04World) op(tok string) string {
 		for _, s := range watch {
 			s.LastSeen = time.Time{}
 		}
-		frame := []byte{1, 1, 0, 4}
-		if p[5] == "tr" {
-			frame = []byte{5, 1, 0, 4}
-		}
+		proto, frame := vc04Frame(p[5])
 		pk := w.pkt(mac, sv, cv, layers.PPPoECodeSession, sid, nil)
 		pk.Protocol = models.ProtocolPPPoESession
-		pk.PPP = &layers.PPP{PPPType: layers.PPPType(0xc021)}
+		pk.PPP = &layers.PPP{PPPType: layers.PPPType(proto)}
 		pk.PPP.Payload = frame
 		c.handleSession(pk)
 		eg, _ := w.bus.take()
